@@ -140,9 +140,10 @@ def page_xml(page_spec, page_id, style='pero', regions_only=False, size=None):
                 out.append('        <Coords points="%s"/>' % ' '.join(pts))
                 out.append('        <Baseline points="%s"/>' % ' '.join('%d,%d' % (round(x), y + b) for x, b in zip(xs, bend)))
             else:
+                tl = int(page_spec.get('tilt', 0))           # the right end of every line is tl pixels lower
                 out.append('      <TextLine id=%s index="%d" custom="heights_v2:[%.1f,%.1f]">' % (quoteattr(g['id']), j, g['hsplit'][0], g['hsplit'][1]))
-                out.append('        <Coords points="%d,%d %d,%d %d,%d %d,%d"/>' % (x0, y - 12, x1, y - 12, x1, y + 4, x0, y + 4))
-                out.append('        <Baseline points="%d,%d %d,%d"/>' % (x0, y, x1, y))
+                out.append('        <Coords points="%d,%d %d,%d %d,%d %d,%d"/>' % (x0, y - 12, x1, y - 12 + tl, x1, y + 4 + tl, x0, y + 4))
+                out.append('        <Baseline points="%d,%d %d,%d"/>' % (x0, y, x1, y + tl))
             out.append('      </TextLine>')
         out.append('    </TextRegion>')
     out.append('  </Page>')
